@@ -342,7 +342,14 @@ func runList(t *testing.T, h func(), path string) {
 			return // the stuck run still owns the package state: stop here
 		}
 		mu.Lock()
-		rs := append([]string{}, reached...)
+		var rs []string
+		dup := map[string]bool{}
+		for _, l := range reached {
+			if !dup[l] {
+				dup[l] = true
+				rs = append(rs, l)
+			}
+		}
 		mu.Unlock()
 		sort.Strings(rs)
 		fmt.Printf("VERIF-CONF %d %s reach=%s\n", i, strings.ReplaceAll(status, "\n", " "), strings.Join(rs, ","))
